@@ -382,7 +382,7 @@ func (it *Interp) callFunction(fn *ssa.Function, args []Value, bindings []Value,
 		return h(it, args)
 	}
 	if it.R != nil && it.R.Fn != nil && it.R.Fn.Pkg != nil {
-		if ov := it.P.override(name, it.R.Fn.Pkg.Pkg.Path()); ov != nil {
+		if ov := it.P.override(name, it.R.Fn.Pkg.Pkg.Path(), it.R.Fn.Name()); ov != nil {
 			return it.callFunction(ov, args, nil, site)
 		}
 	}
